@@ -98,7 +98,9 @@ DlqWrite ==
   /\ IF Ev.tagok /\ IsSrc(Ev.src)
        THEN /\ st' = [st EXCEPT !.dlqW = Append(@, Org), !.dlqP = @ \cup {Org}]
             /\ viol' = viol
-                 \cup Add(~(Org \in Rng(st.dlqW)), "DlqOnce", Ev.tag)
+                 \* exactly once: no second write while one is outstanding or after one was confirmed
+                 \* (re-trying a write the DLQ refused is not a second copy)
+                 \cup Add(~(Org \in st.dlqDone \cup st.dlqP), "DlqOnce", Ev.tag)
                  \cup Add(\A k \in 1..Len(st.dlqW) :
                             st.dlqW[k][1] = Ev.src => st.dlqW[k][2] <= Ev.idx, "DlqSourceOrder", Ev.tag)
                  \cup Add(~(Ev.idx \in Rng(st.acked[Ev.src])), "DlqBeforeAck", Ev.tag)
